@@ -53,7 +53,7 @@ static STREAM_READS: AtomicU64 = AtomicU64::new(0);
 fn flood(producers: u8, out: &mut Outcome) {
     use crate::memsrc::MemSource;
     use assets_manager::AssetCache;
-    const LIMIT: u64 = 2_000_000;
+    const LIMIT: u64 = 5_000_000;
     let src = MemSource::new(true);
     src.tree().put("a", "v", b"1".to_vec(), Variant::Buffer);
     let cache = AssetCache::with_source(src.handle());
@@ -66,7 +66,7 @@ fn flood(producers: u8, out: &mut Outcome) {
             let (sender, sent, stop) = (sender.clone(), &sent, &stop);
             s.spawn(move || {
                 let e = assets_manager::source::OwnedDirEntry::File("a".into(), "zz".into());
-                while !stop.load(SeqCst) && sent.load(SeqCst) < 3 * LIMIT {
+                while !stop.load(SeqCst) && sent.load(SeqCst) < 2 * LIMIT {
                     let _ = sender.send(e.clone());
                     sent.fetch_add(1, SeqCst);
                 }
@@ -213,7 +213,7 @@ impl Prop for C08 {
 
     fn rule(&self) -> String {
         "cases = (1..6 compound nodes whose recipes load leaves and get_cached ANY node - themselves and each other, so that look-up cycles of every length arise - with generated busy work in the loader; \
-         1..8 threads each calling hot_reload 20..300 times; 0..3 threads loading and inserting concurrently; bursts of notified edits (single or batched) sent meanwhile; optionally a node that after a rewrite loads 100..1500 never-seen assets within one reload; in a fifth of the cases the source drops its event sender after 0..3 rounds (a watcher that dies: the reloader thread ends and the remaining calls must degrade to no-ops); in a third of the cases 100..600 notifications of one leaf are then sent back to back while one caller keeps calling (one call = one pass: the leaf is read at most once per call); in a quarter 100..500 rounds of {fresh cache whose reloader is parked in the destructor of its source after the sender was dropped, then released at a swept instant against 2..6 callers entering hot_reload}; in a sixth one hot_reload call against 3..6 threads flooding the event channel (the call must be back before 2 million more notifications were sent). \
+         1..8 threads each calling hot_reload 20..300 times; 0..3 threads loading and inserting concurrently; bursts of notified edits (single or batched) sent meanwhile; optionally a node that after a rewrite loads 100..1500 never-seen assets within one reload; in a fifth of the cases the source drops its event sender after 0..3 rounds (a watcher that dies: the reloader thread ends and the remaining calls must degrade to no-ops); in a third of the cases 100..600 notifications of one leaf are then sent back to back while one caller keeps calling (one call = one pass: the leaf is read at most once per call); in a quarter 100..500 rounds of {fresh cache whose reloader is parked in the destructor of its source after the sender was dropped, then released at a swept instant against 2..6 callers entering hot_reload}; in a sixth one hot_reload call against 3..6 threads flooding the event channel (the call must be back before 5 million more notifications were sent). \
          Oracle: every call returns (the supervisor's blocked-state detector: all threads asleep with zero CPU while the case is unfinished = deadlock; never a timeout), the process does not abort (worker exit status), \
          and the reloader never loads or reads while no thread is inside hot_reload (a caller released by somebody else's answer leaves its own request to be served later), and after all callers returned a freshly notified change is still applied within 4000 calls (unless the watcher died). \
          non-trivial = at least two hot_reload requests were in flight at once, or a look-up cycle received an event; distinct = different canonical JSON"
